@@ -1,5 +1,6 @@
 SPECIFICATION Spec
 CONSTANTS DeferredStoreCancel = FALSE
+          TimeoutCancelInStore = TRUE
           PromptRunner = TRUE
 INVARIANTS Emit
 CHECK_DEADLOCK FALSE
